@@ -8,6 +8,7 @@
 EXTENDS StreamSelect, Json
 
 CONSTANTS N, MaxSteps, Part, Parts, AnyNode, EmitCases, EmitMod,
+          Pre,     \* BOOLEAN: also the xpaths with an attribute predicate in front of the last predicate
           Family   \* "all": every document with N nodes; "nested": the 8-node shape  r{ x{ y{t} }, z{ w{ v{t} } } }  with every
                    \* naming - a candidate (x or y) that may be rejected, followed by a container z whose candidates lie deeper
 
@@ -41,7 +42,11 @@ Preds == {[pk |-> "none", pn |-> "", pv |-> ""],
           [pk |-> "child", pn |-> "a", pv |-> ""], [pk |-> "child", pn |-> "b", pv |-> ""],
           \* predicates that a candidate without any content satisfies
           [pk |-> "nochild", pn |-> "a", pv |-> ""], [pk |-> "self=", pn |-> "", pv |-> ""]}
-XPaths == { [steps |-> s, pk |-> p.pk, pn |-> p.pn, pv |-> p.pv] : s \in UNION {[1..k -> Steps] : k \in 1..MaxSteps}, p \in Preds }
+\* (a second predicate in front of the last one: on an attribute, the only thing known when the element opens)
+\* (without a last predicate the attribute predicate would itself be the last one, i.e. pk = "attr=")
+XPaths == { x \in { [steps |-> s, pk |-> p.pk, pn |-> p.pn, pv |-> p.pv, pre |-> pre] :
+                      s \in UNION {[1..k -> Steps] : k \in 1..MaxSteps}, p \in Preds, pre \in (IF Pre THEN {"", "attr"} ELSE {""}) } :
+              ~(x.pre = "attr" /\ x.pk = "none") }
 
 NestedDocs == { [n |-> 8, par |-> <<0, 1, 2, 3, 1, 5, 6, 7>>,
                   kind |-> <<"E", "E", "E", "T", "E", "E", "E", "T">>,
